@@ -63,64 +63,99 @@ theorem runHist_frame (sem : EntrySummary → A → GState V → GState V × R) 
     intro v hv
     exact (hr c List.mem_cons_self).frame g v (fun hmem => hv (hw c List.mem_cons_self v hmem))
 
+theorem Respects.toInv {f : GState V → GState V × R} {rbw writes : List Nat} (h : Respects f rbw writes) :
+    RespectsInv (fun _ => True) [] f rbw writes :=
+  ⟨h.frame, fun _ _ => trivial, fun g g' _ _ ha => h.reads g g' (fun v hv => ha v (by simpa using hv))⟩
+
+theorem badIgn_eq_nil_iff {W ign : List Nat} {e : EntrySummary} :
+    e.badIgn W ign = [] ↔ ∀ v ∈ e.rbw, v ∉ ign → v ∉ W := by
+  simp only [EntrySummary.badIgn, List.filter_eq_nil_iff]
+  constructor
+  · intro h v hv hi hW
+    exact h v hv (by simp [hW, hi])
+  · intro h v hv hc
+    simp only [Bool.and_eq_true, List.contains_eq_mem, decide_eq_true_eq, Bool.not_eq_true',
+      decide_eq_false_iff_not] at hc
+    exact h v hv hc.2 hc.1
+
+/-- with an invariant: whatever the history, the invariant still holds and only written variables have changed -/
+theorem runHist_frame_inv (Inv : GState V → Prop) (ign : List Nat)
+    (sem : EntrySummary → A → GState V → GState V × R) (W : List Nat) :
+    ∀ (h : List (Call A)) (g : GState V), Inv g →
+      (∀ c ∈ h, RespectsInv Inv ign (sem c.entry c.arg) c.entry.rbw c.entry.writes) →
+      (∀ c ∈ h, ∀ v ∈ c.entry.writes, v ∈ W) →
+      Inv (runHist sem h g) ∧ AgreeOff W (runHist sem h g) g
+  | [], g, hi, _, _ => ⟨hi, AgreeOff.refl W g⟩
+  | c :: cs, g, hi, hr, hw => by
+    simp only [runHist]
+    have hc := hr c List.mem_cons_self
+    have ih := runHist_frame_inv Inv ign sem W cs (sem c.entry c.arg g).1 (hc.inv g hi)
+      (fun c' hc' => hr c' (List.mem_cons_of_mem _ hc')) (fun c' hc' => hw c' (List.mem_cons_of_mem _ hc'))
+    refine ⟨ih.1, ih.2.trans ?_⟩
+    intro v hv
+    exact hc.frame g v (fun hmem => hv (hw c List.mem_cons_self v hmem))
+
 /-! ### interleavings, relational form
 
-`R` relates shared states that the builders cannot tell apart.  Prototype §M is the instance `R := fun _ _ => True`
-(handlers ignore the shared component altogether); the summary-driven theorem uses `R := AgreeOff W`. -/
+`Rel` relates shared states that the builders cannot tell apart, `P` is an invariant of the shared state.  Prototype §M
+is the instance `P := True`, `Rel := fun _ _ => True` (handlers ignore the shared component altogether); the
+summary-driven theorem uses `Rel := AgreeOff W` and the invariant under which memo caches are harmless. -/
 
 variable {σ α β ca cb : Type}
 
-structure IsolatedRel (S : Sys σ α β ca cb) (Rel : σ → σ → Prop) : Prop where
-  refl : ∀ s, Rel s s
+structure IsolatedRel (S : Sys σ α β ca cb) (P : σ → Prop) (Rel : σ → σ → Prop) : Prop where
   symm : ∀ s s', Rel s s' → Rel s' s
   trans : ∀ s s' s'', Rel s s' → Rel s' s'' → Rel s s''
+  /-- `P` (an invariant of the shared state) is preserved by every handler call -/
+  a_inv : ∀ s x c, P s → P (S.stepA s x c).1
+  b_inv : ∀ s y c, P s → P (S.stepB s y c).1
   /-- a handler's effect on its builder's own state is the same from indistinguishable shared states -/
-  a_loc : ∀ s s' x c, Rel s s' → (S.stepA s x c).2 = (S.stepA s' x c).2
-  b_loc : ∀ s s' y c, Rel s s' → (S.stepB s y c).2 = (S.stepB s' y c).2
+  a_loc : ∀ s s' x c, P s → P s' → Rel s s' → (S.stepA s x c).2 = (S.stepA s' x c).2
+  b_loc : ∀ s s' y c, P s → P s' → Rel s s' → (S.stepB s y c).2 = (S.stepB s' y c).2
   /-- a handler moves the shared state only to an indistinguishable one -/
-  a_stays : ∀ s x c, Rel (S.stepA s x c).1 s
-  b_stays : ∀ s y c, Rel (S.stepB s y c).1 s
+  a_stays : ∀ s x c, P s → Rel (S.stepA s x c).1 s
+  b_stays : ∀ s y c, P s → Rel (S.stepB s y c).1 s
 
-theorem soloA_rel (S : Sys σ α β ca cb) {Rel : σ → σ → Prop} (h : IsolatedRel S Rel) :
-    ∀ cs s s' x, Rel s s' → (soloA S cs (s, x)).2 = (soloA S cs (s', x)).2
-  | [], _, _, _, _ => rfl
-  | c :: cs, s, s', x, hr => by
+theorem soloA_rel (S : Sys σ α β ca cb) {P : σ → Prop} {Rel : σ → σ → Prop} (h : IsolatedRel S P Rel) :
+    ∀ cs s s' x, P s → P s' → Rel s s' → (soloA S cs (s, x)).2 = (soloA S cs (s', x)).2
+  | [], _, _, _, _, _, _ => rfl
+  | c :: cs, s, s', x, hp, hp', hr => by
     simp only [soloA]
     rw [show S.stepA s x c = ((S.stepA s x c).1, (S.stepA s x c).2) from rfl,
         show S.stepA s' x c = ((S.stepA s' x c).1, (S.stepA s' x c).2) from rfl,
-        h.a_loc s s' x c hr]
-    refine soloA_rel S h cs _ _ _ ?_
-    exact h.trans _ _ _ (h.a_stays s x c) (h.trans _ _ _ hr (h.symm _ _ (h.a_stays s' x c)))
+        h.a_loc s s' x c hp hp' hr]
+    refine soloA_rel S h cs _ _ _ (h.a_inv s x c hp) (h.a_inv s' x c hp') ?_
+    exact h.trans _ _ _ (h.a_stays s x c hp) (h.trans _ _ _ hr (h.symm _ _ (h.a_stays s' x c hp')))
 
-theorem soloB_rel (S : Sys σ α β ca cb) {Rel : σ → σ → Prop} (h : IsolatedRel S Rel) :
-    ∀ cs s s' y, Rel s s' → (soloB S cs (s, y)).2 = (soloB S cs (s', y)).2
-  | [], _, _, _, _ => rfl
-  | c :: cs, s, s', y, hr => by
+theorem soloB_rel (S : Sys σ α β ca cb) {P : σ → Prop} {Rel : σ → σ → Prop} (h : IsolatedRel S P Rel) :
+    ∀ cs s s' y, P s → P s' → Rel s s' → (soloB S cs (s, y)).2 = (soloB S cs (s', y)).2
+  | [], _, _, _, _, _, _ => rfl
+  | c :: cs, s, s', y, hp, hp', hr => by
     simp only [soloB]
     rw [show S.stepB s y c = ((S.stepB s y c).1, (S.stepB s y c).2) from rfl,
         show S.stepB s' y c = ((S.stepB s' y c).1, (S.stepB s' y c).2) from rfl,
-        h.b_loc s s' y c hr]
-    refine soloB_rel S h cs _ _ _ ?_
-    exact h.trans _ _ _ (h.b_stays s y c) (h.trans _ _ _ hr (h.symm _ _ (h.b_stays s' y c)))
+        h.b_loc s s' y c hp hp' hr]
+    refine soloB_rel S h cs _ _ _ (h.b_inv s y c hp) (h.b_inv s' y c hp') ?_
+    exact h.trans _ _ _ (h.b_stays s y c hp) (h.trans _ _ _ hr (h.symm _ _ (h.b_stays s' y c hp')))
 
 /-- every interleaving leaves each builder with the state of its solo run -/
-theorem run_eq_solo (S : Sys σ α β ca cb) {Rel : σ → σ → Prop} (h : IsolatedRel S Rel) :
-    ∀ (es : List (Ev ca cb)) (s : σ) (x : α) (y : β),
+theorem run_eq_solo (S : Sys σ α β ca cb) {P : σ → Prop} {Rel : σ → σ → Prop} (h : IsolatedRel S P Rel) :
+    ∀ (es : List (Ev ca cb)) (s : σ) (x : α) (y : β), P s →
       (run S es (s, x, y)).2.1 = (soloA S (projA es) (s, x)).2 ∧
       (run S es (s, x, y)).2.2 = (soloB S (projB es) (s, y)).2
-  | [], _, _, _ => ⟨rfl, rfl⟩
-  | .a c :: es, s, x, y => by
-    have ih := run_eq_solo S h es (S.stepA s x c).1 (S.stepA s x c).2 y
+  | [], _, _, _, _ => ⟨rfl, rfl⟩
+  | .a c :: es, s, x, y, hp => by
+    have ih := run_eq_solo S h es (S.stepA s x c).1 (S.stepA s x c).2 y (h.a_inv s x c hp)
     simp only [run, projA, projB, soloA]
     refine ⟨ih.1, ?_⟩
     rw [ih.2]
-    exact soloB_rel S h _ _ _ _ (h.a_stays s x c)
-  | .b c :: es, s, x, y => by
-    have ih := run_eq_solo S h es (S.stepB s y c).1 x (S.stepB s y c).2
+    exact soloB_rel S h _ _ _ _ (h.a_inv s x c hp) hp (h.a_stays s x c hp)
+  | .b c :: es, s, x, y, hp => by
+    have ih := run_eq_solo S h es (S.stepB s y c).1 x (S.stepB s y c).2 (h.b_inv s y c hp)
     simp only [run, projA, projB, soloB]
     refine ⟨?_, ih.2⟩
     rw [ih.1]
-    exact soloA_rel S h _ _ _ _ (h.b_stays s y c)
+    exact soloA_rel S h _ _ _ _ (h.b_inv s y c hp) hp (h.b_stays s y c hp)
 
 /-- the executable `merges` enumerates interleavings only -/
 theorem merges_sound : ∀ (xs : List ca) (ys : List cb) (es : List (Ev ca cb)),
